@@ -306,6 +306,13 @@ fn shard_rng(id: &str, seed: u64, shard: usize) -> TestRng {
     TestRng::from_seed(RngAlgorithm::ChaCha, &bytes)
 }
 
+/// deterministic tapes for auxiliary stages (drawn from proptest's own generator)
+pub fn sample_tapes(id: &str, seed: u64, n: usize, len: usize) -> Vec<Vec<u64>> {
+    let mut runner = TestRunner::new_with_rng(Config { failure_persistence: None, ..Config::default() }, shard_rng(id, seed, 0));
+    let strategy = proptest::collection::vec(proptest::num::u64::ANY, len..=len);
+    (0..n).map(|_| strategy.new_tree(&mut runner).expect("tape").current()).collect()
+}
+
 /// run one shard: returns its statistics (including at most one shrunk failure)
 fn run_shard<C: Serialize + Clone + std::fmt::Debug>(spec: &Spec<C>, tier: Tier, seed: u64, shard: usize, cases: u32, known: &[KnownEntry]) -> Stats {
     let config = Config { cases, failure_persistence: None, max_shrink_iters: spec.max_shrink_iters, max_global_rejects: u32::MAX, ..Config::default() };
@@ -603,11 +610,3 @@ pub fn truncate(s: &str, n: usize) -> String {
     }
 }
 
-#[allow(unused)]
-fn _assert_strategy_is_used() {
-    // keeps the ValueTree import honest for older proptest versions
-    fn f<S: Strategy>(s: &S, r: &mut TestRunner) {
-        let _ = s.new_tree(r).map(|t| t.current());
-    }
-    let _ = f::<proptest::num::u64::Any>;
-}
